@@ -242,6 +242,35 @@ def embedded_keywords(ctx):
                 ctx.violation(f"name-with-embedded-keyword:{'str' if suffix else 'num'}:{'refused' if o[0] != 'ok' else 'split'}", f"`10 {carrier}=...` (keyword {k} inside the name) -> {o[0]} {(o[1] or '')[:70]!r}; expected one assignment to {want}", {"names": [stem, stem], "kind": "str" if suffix else "num"})
 
 
+def reserved_word_positions(ctx):
+    """a word is a variable in every position or in none: for every reserved word of Color BASIC (reference list) and of
+    the tool's own keyword list, the positions in which the tool reads it as a user variable (its first two characters
+    come out as an identifier) are all of the positions it accepts, or none of them.  A word that is a variable as an
+    assignment target and something else inside an expression is two different things under one name."""
+    from coco.b09 import grammar as G
+
+    from vf.tv import cbfront
+
+    words = sorted({k.replace("\\", "") for k in G.KEYWORDS.split("|") if re.fullmatch(r"[A-Z]+", k.replace("\\", ""))} | {w for w in set(cbfront.STATEMENT_WORDS) | set(cbfront.NUM_FUNCS) if re.fullmatch(r"[A-Z]+", w)} | {"ERNO", "ERR", "ERLIN"})
+    positions = ["10 {v}=1", "10 LET {v}=1", "10 Z={v}+1", "10 Z=2*{v}", "10 FOR {v}=1 TO 2:NEXT {v}", "10 READ {v}", "10 INPUT {v}", "10 PRINT {v}", "10 IF {v}=1 THEN 10",
+                 "10 Z=Q({v})", "10 POKE 1,{v}", "10 DIM {v}(4)", "10 {v}(1)=2", "10 ON {v} GOTO 10"]
+    for w in words:
+        as_var, other = [], []
+        for pos in positions:
+            o = classify(pos.format(v=w) + "\n")
+            ctx.stats["programs"] += 1
+            if o[0] != "ok":
+                continue
+            code = re.sub(r'"[^"]*"', '""', re.sub(r"\(\*.*?\*\)", "", o[1]))
+            is_var = re.search(r"(?<![A-Za-z_0-9$])(arr_)?" + re.escape(w[:2]) + r"(?![A-Za-z_0-9$])", code) is not None
+            (as_var if is_var else other).append((pos, o[1].strip().replace("\n", " | ")[:60]))
+        ctx.stats["obligations"] += 1
+        if as_var and other:
+            ctx.violation(f"word-is-variable-and-keyword:{w}", f"{w} is the user variable {w[:2]} in {as_var[0][0].format(v=w)!r} -> {as_var[0][1]!r} but not in {other[0][0].format(v=w)!r} -> {other[0][1]!r}", {"names": [w, w], "word": w, "as_variable": as_var[:3], "otherwise": other[:3]})
+        else:
+            ctx.stats["identity"] += 1
+
+
 def same_name_kinds(ctx):
     """one two-character name used as scalar, string, array and string array in one program: four identifiers, each
     array declared (explicitly DIMmed or not, in either order of first use)"""
@@ -250,13 +279,24 @@ def same_name_kinds(ctx):
     from vf.tv.lex import SyntaxErr
 
     uses = {"num": "{n} = 1", "str": '{n}$ = "A"', "numarr": "{n} ( 1 ) = 2", "strarr": '{n}$ ( 2 ) = "B"'}
-    dims = {"numarr": "DIM {n} ( 5 )", "strarr": "DIM {n}$ ( 5 )"}
+    dims = {"numarr": "DIM {n} ( 5 )", "strarr": "DIM {n}$ ( 5 )", "str": "DIM {n}$", "both": "DIM {n}$ ( 5 ) , {n}$", "both2": "DIM {n}$ , {n}$ ( 5 )"}
+    from coco.b09.configs import CompilerConfigs, StringConfigs
+
+    def cfg(mapping):
+        return CompilerConfigs(string_configs=StringConfigs(strname_to_size=mapping))
+
     for name in ("Q", "NA", "NAME"):
         for order in itertools.permutations(KINDS, 2):
-            for dimmed in (None,) + tuple(k for k in order if k in dims):
+            both = ("both", "both2") if set(order) == {"str", "strarr"} else ()
+            for dimmed in (None,) + tuple(k for k in order if k in dims) + both:
                 parts = ([dims[dimmed].format(n=name)] if dimmed else []) + [uses[k].format(n=name) for k in order]
                 src = "10 " + " : ".join(parts)
-                for kw in (dict(), dict(initialize_vars=True, default_str_storage=40)):
+                kws = [dict(), dict(initialize_vars=True, default_str_storage=40)]
+                if dimmed in ("str", "strarr", "both", "both2"):
+                    # a size configured for the scalar does not reach the array of the same name, and the other way round
+                    kws += [dict(default_str_storage=40, compiler_configs=cfg({name[:2] + "$()": 77})), dict(default_str_storage=40, compiler_configs=cfg({name[:2] + "$": 55})),
+                            dict(default_str_storage=40, compiler_configs=cfg({name[:2] + "$()": 77, name[:2] + "$": 55})), dict(default_str_storage=40, compiler_configs=cfg({name[:2] + "$": 55, name[:2] + "$()": 77}))]
+                for kw in kws:
                     ctx.stats["programs"] += 1
                     ctx.stats["obligations"] += 1
                     o = classify(src + "\n", **kw)
@@ -280,20 +320,33 @@ def same_name_kinds(ctx):
                         for k in order:
                             if k in ("num", "str"):
                                 ident = name[:2] + ("$" if k == "str" else "")
-                                if not re.search(r"(?m)(^|\\ )\s*" + re.escape(ident) + r" := (0\.0|\"\")", head):
+                                # a scalar that is itself DIMmed is initialised by the statements its DIM becomes, not by the prologue
+                                where = o[1] if (k == "str" and dimmed in ("str", "both", "both2")) else head
+                                if not re.search(r"(?m)(^|\\ )\s*" + re.escape(ident) + r" := (0\.0|\"\")", where):
                                     uninit.append(ident)
                     if kw.get("default_str_storage", 32) != 32:
                         # a string scalar keeps its own storage declaration beside a string array of the same name
                         short = []
+                        configured = {}
+                        if "compiler_configs" in kw:
+                            for ck, cv in kw["compiler_configs"].string_configs.strname_to_size.items():
+                                configured[("ARR_" + ck[:-2] if ck.endswith("()") else ck).upper()] = cv
+                        dimmed_keys = set()
+                        if dimmed in ("str", "both", "both2"):
+                            dimmed_keys.add((name[:2] + "$").upper())
+                        if dimmed in ("strarr", "both", "both2"):
+                            dimmed_keys.add(("ARR_" + name[:2] + "$").upper())
                         for u in used:
                             key = u[1].upper()
                             if key.endswith("$") and not key.startswith("TMP_"):
                                 d = decls.get(key)
                                 cap = 32 if d is None or d[2] is None else d[2]
-                                if cap != kw["default_str_storage"]:
-                                    short.append(f"{u[1]}:{cap}")
+                                wantcap = configured[key] if key in configured and key in dimmed_keys else kw["default_str_storage"]
+                                if cap != wantcap:
+                                    short.append(f"{u[1]}:{cap} (expected {wantcap})")
                         if short:
-                            ctx.violation(f"kinds-string-capacity:{'/'.join(order)}:{'dim-' + dimmed if dimmed else 'implicit'}", f"{src!r} {kw}: declared capacity {sorted(set(short))}, requested {kw['default_str_storage']}", {"source": src})
+                            tag = "configured:" if configured else ""
+                            ctx.violation(f"kinds-string-capacity:{tag}{'/'.join(order)}:{'dim-' + dimmed if dimmed else 'implicit'}", f"{src!r} {({k: (v if k != 'compiler_configs' else v.string_configs.strname_to_size) for k, v in kw.items()})}: declared capacity {sorted(set(short))}", {"source": src})
                             continue
                     if uninit:
                         ctx.violation(f"kinds-scalar-not-initialised:{'/'.join(order)}:{'dim-' + dimmed if dimmed else 'implicit'}", f"{src!r} {kw}: scalar {uninit} is not pre-initialised although only the array of that name is declared", {"source": src})
@@ -457,6 +510,7 @@ def run(tier):
     name_language(ctx, var_pat, str_pat, maxlen)
     embedded_keywords(ctx)
     same_name_kinds(ctx)
+    reserved_word_positions(ctx)
     generated_not_initialised(ctx, gen_out, G)
     ctx.add_solver_stats(stats.export())
     ctx.extra["solver"] = {"z3": smt.z3_version()}
